@@ -729,7 +729,13 @@ impl LineBuffer {
         };
         search_result.map(|pos| match cs {
             CharSearch::Backward(_) => pos,
-            CharSearch::BackwardAfter(c) => pos + c.len_utf8(),
+            CharSearch::BackwardAfter(c) => {
+                // step over the whole grapheme cluster of the found char
+                pos + self.buf[pos..self.pos]
+                    .graphemes(true)
+                    .next()
+                    .map_or(c.len_utf8(), str::len)
+            }
             CharSearch::Forward(_) => shift + pos,
             CharSearch::ForwardBefore(_) => {
                 shift + pos
